@@ -105,7 +105,9 @@ Definition all_res {T} (f : T -> res unit) : list T -> res unit :=
 
 (* ------------------------------------------------------------------ environment *)
 Inductive origin := FromArg | FromAlloc | FromWin.
-Record binding := { b_prec : prec; b_mem : memid; b_shape : shape; b_org : origin; b_src : ident }.
+(* b_src: the src_buf RECORDED on a window's type; b_root: the buffer a window aliases, following the source names of
+   the window statements (GetWrites.window_dict / Compiler._win_root); both are the name itself for non-windows *)
+Record binding := { b_prec : prec; b_mem : memid; b_shape : shape; b_org : origin; b_src : ident; b_root : ident }.
 Definition env := list (ident * binding).
 
 Fixpoint lookup {T} (x : ident) (G : list (ident * T)) : option T :=
@@ -117,17 +119,18 @@ Fixpoint lookup {T} (x : ident) (G : list (ident * T)) : option T :=
 Definition arg_binds (d : prec) (G : env) (a : farg) : env :=
   match a with
   | FCtrl _ => G
-  | FNum x p m sh => (x, {| b_prec := resolve d p; b_mem := m; b_shape := sh; b_org := FromArg; b_src := x |}) :: G
+  | FNum x p m sh => (x, {| b_prec := resolve d p; b_mem := m; b_shape := sh; b_org := FromArg; b_src := x; b_root := x |}) :: G
   end.
 
 Fixpoint binds_s {A} (d : prec) (G : env) (s : stmt A) : env :=
   match s with
   | SAlloc x p m n =>
       (x, {| b_prec := resolve d p; b_mem := m; b_shape := (if Nat.eqb n 0 then ShScalar else ShDense n);
-             b_org := FromAlloc; b_src := x |}) :: G
+             b_org := FromAlloc; b_src := x; b_root := x |}) :: G
   | SWin x src nout sb =>
       match lookup src G with
-      | Some b => (x, {| b_prec := b_prec b; b_mem := b_mem b; b_shape := ShWin nout; b_org := FromWin; b_src := sb |}) :: G
+      | Some b => (x, {| b_prec := b_prec b; b_mem := b_mem b; b_shape := ShWin nout; b_org := FromWin; b_src := sb;
+                         b_root := match b_org b with FromWin => b_root b | _ => src end |}) :: G
       | None => G
       end
   | SIf b1 b2 => fold_left (binds_s d) b2 (fold_left (binds_s d) b1 G)
@@ -399,19 +402,26 @@ Definition formal_cty (d : prec) (written : bool) (f : farg) : cty :=
   | FNum _ p _ _ => CPtr (resolve d p) (negb written)
   end.
 
+(* the root buffer of a name according to the environment (= _win_root.get(x, x) / window_dict.get(x, x)) *)
+Definition rootG (G : env) (x : ident) : ident :=
+  match lookup x G with
+  | Some b => match b_org b with FromWin => b_root b | _ => x end
+  | None => x
+  end.
+
 (* is the data pointer reachable through name x const-qualified?  (NC = non_const of the procedure) *)
-Definition name_const (NC : list ident) (x : ident) (b : binding) : bool :=
+Definition name_const (G : env) (NC : list ident) (x : ident) (b : binding) : bool :=
   match b_org b with
   | FromArg => negb (mem_id x NC)
   | FromAlloc => false
-  | FromWin => negb (mem_id (b_src b) NC)       (* get_window_type: typ.src_buf not in non_const *)
+  | FromWin => negb (mem_id (rootG G (b_src b)) NC)   (* get_window_type: _win_root.get(src_buf, src_buf) not in non_const *)
   end.
 
 (* C type of the expression comp_fnarg emits for a bare name *)
-Definition name_cty (NC : list ident) (x : ident) (b : binding) : cty :=
+Definition name_cty (G : env) (NC : list ident) (x : ident) (b : binding) : cty :=
   match b_shape b with
-  | ShWin n => CWin n (b_prec b) (name_const NC x b)
-  | _ => CPtr (b_prec b) (name_const NC x b)     (* pointer argument, malloc'd / array buffer, &scalar *)
+  | ShWin n => CWin n (b_prec b) (name_const G NC x b)
+  | _ => CPtr (b_prec b) (name_const G NC x b)     (* pointer argument, malloc'd / array buffer, &scalar *)
   end.
 
 Inductive oblig :=
@@ -427,7 +437,7 @@ Definition carg_obl (d : prec) (NC : list ident) (G : env) (a : carg) (written :
   | ACtl => [OArg CCtl (formal_cty d written f)]
   | ARd x _ _ =>
       match lookup x G with
-      | Some b => [OArg (name_cty NC x b) (formal_cty d written f)]
+      | Some b => [OArg (name_cty G NC x b) (formal_cty d written f)]
       | None => [OCrash]
       end
   | AWn x nout =>
@@ -435,7 +445,7 @@ Definition carg_obl (d : prec) (NC : list ident) (G : env) (a : carg) (written :
       | Some b =>
           (* comp_fnarg: struct of the CALLEE's const-ness, built from x's data pointer *)
           [OArg (CWin nout (b_prec b) (negb written)) (formal_cty d written f);
-           OInit (name_const NC x b) (negb written)]
+           OInit (name_const G NC x b) (negb written)]
       | None => [OCrash]
       end
   end.
@@ -452,14 +462,14 @@ Fixpoint obl_s (d : prec) (W : list (list bool)) (sigs : list (list farg)) (NC :
   match s with
   | SAssign x t e | SReduce x t e =>
       match lookup x G with
-      | Some b => [OExpr e; OAsg t (b_prec b); OLval (name_const NC x b)]
+      | Some b => [OExpr e; OAsg t (b_prec b); OLval (name_const G NC x b)]
       | None => [OCrash]
       end
   | SIf b1 b2 => flat_map (obl_s d W sigs NC G) b1 ++ flat_map (obl_s d W sigs NC G) b2
   | SFor b => flat_map (obl_s d W sigs NC G) b
   | SWin x src nout sb =>
       match lookup src G, lookup x G with
-      | Some bs, Some bx => [OInit (name_const NC src bs) (name_const NC x bx)]
+      | Some bs, Some bx => [OInit (name_const G NC src bs) (name_const G NC x bx)]
       | _, _ => [OCrash]
       end
   | SCall f args =>
@@ -597,19 +607,19 @@ Fixpoint sites_ok (G : env) (args : list carg) (fs : list farg) : bool :=
   | _, _ => false
   end.
 
-(* the root buffer of a name according to the environment: a window variable stands for its recorded src_buf *)
-Definition rootG (G : env) (x : ident) : ident :=
+(* the src_buf recorded on a window variable lies in its alias chain: it resolves to the variable's root *)
+Definition wc (G : env) (x : ident) : bool :=
   match lookup x G with
-  | Some b => match b_org b with FromWin => b_src b | _ => x end
-  | None => x
+  | Some b => match b_org b with FromWin => Nat.eqb (rootG G (b_src b)) (b_root b) | _ => true end
+  | None => true
   end.
 
 Definition names_agree (G : env) (D : list (ident * ident)) (args : list carg) : bool :=
-  forallb (fun a => match arg_name a with Some x => Nat.eqb (root D x) (rootG G x) | None => true end) args.
+  forallb (fun a => match arg_name a with Some x => Nat.eqb (root D x) (rootG G x) && wc G x | None => true end) args.
 
 (* state: window_dict exactly as threaded by wr_s.  Checked on the way:
-   - every window statement records the ROOT of its source as src_buf, and the environment's entry for the new name
-     is this very statement's (unique binders);
+   - every window statement records as src_buf a name of its source's alias chain (the root, or after inline an
+     intermediate window), and the environment's entry for the new name is this very statement's (unique binders);
    - at every write and at every call argument the window_dict resolves the name as the environment does
      (names are used after their definition);
    - every call site satisfies site_ok. *)
@@ -617,11 +627,12 @@ Fixpoint hyp_s {A} (sigs : list (list farg)) (G : env) (st : bool * list (ident 
   : bool * list (ident * ident) :=
   let '(ok, D) := st in
   match s with
-  | SAssign x _ _ | SReduce x _ _ => (ok && Nat.eqb (root D x) (rootG G x), D)
+  | SAssign x _ _ | SReduce x _ _ => (ok && Nat.eqb (root D x) (rootG G x) && wc G x, D)
   | SWin w src _ sb =>
-      (ok && Nat.eqb sb (root D src) && Nat.eqb (root D src) (rootG G src)
+      (ok && Nat.eqb (rootG G sb) (root D src) && Nat.eqb (root D src) (rootG G src) && wc G src
           && match lookup w G with
              | Some b => (match b_org b with FromWin => true | _ => false end) && Nat.eqb (b_src b) sb
+                         && Nat.eqb (b_root b) (root D src)
              | None => false
              end,
        (w, root D src) :: D)
